@@ -110,6 +110,8 @@ def _lit(v, kind=None):
         return f"np.float32({v!r})"
     if kind == "arr0d":
         return f"np.array({v!r})"
+    if kind in ("npf16", "npu8", "npi8", "npi16", "npu16"):
+        return f"np.{ {'npf16': 'float16', 'npu8': 'uint8', 'npi8': 'int8', 'npi16': 'int16', 'npu16': 'uint16'}[kind] }({v!r})"
     return repr(v)
 
 
